@@ -450,7 +450,7 @@ def main(prop):
                       "a process that exits with status 0 has flushed everything it put",
                       "put/flush/get are atomic with respect to a worker's death (a kill inside a pipe write is outside the model)"]
     ck.canon = ["records identified by read name", "log output ignored"]
-    ck.lean_build(["Gaftools.Props.C11b"])
+    ck.lean_build(["Gaftools.Props.C11b", "Gaftools.Props.TieA3"])
     ck.audit("%s.lean" % prop)
     import gaftools.cli.realign as R
     tmp = tempfile.mkdtemp(prefix="gtv-realign-")
